@@ -146,7 +146,7 @@ impl Property for C04 {
         }
     }
     fn rule(&self) -> &'static str {
-        "per run: machine, 128K paging latch (bank 0-7 at 0xC000, ROM, screen), then (a) 150 single bus operations (read 3/4 T, one-T delay, delay loop, port read/write) and (b) 300 stratified instructions (7 pages x 256 opcodes, random register file so that code, operands, stack, I register and BC land in contended or uncontended memory) each from a start T drawn uniformly or from +-16 T around the edges of the contention window / frame; observed duration vs RefULA applied to RefZ80's cycle script; distinct = (machine, cycle kind or (page, opcode, variant), contended?, (T-T0) mod 8, in-window?)"
+        "per run: machine, 128K paging latch (bank 0-7 at 0xC000, ROM, screen), then (a) 150 single bus operations (read 3/4 T, one-T delay, delay loop, port read/write) and (b) 300 stratified instructions (7 pages x 256 opcodes, random register file so that code, operands, stack, I register and BC land in contended or uncontended memory) each from a start T drawn uniformly or from +-16 T around the edges of the contention window / frame; observed duration vs RefULA applied to RefZ80's cycle script; every sixth run instead (c) a whole-machine lock-step of 3000+ instructions of seeded random code against RefZ80 on RefMem+RefULA with no re-synchronisation, cumulative time compared after every instruction (stale caches, latches following ignored writes); distinct = (machine, cycle kind or (page, opcode, variant), contended?, (T-T0) mod 8, in-window?)"
     }
     fn state_measure(&self) -> &'static str {
         "distinct (machine, paged bank, picture line class, T mod line) start positions"
@@ -165,7 +165,7 @@ impl Property for C04 {
         ]
     }
     fn expected_probes(&self) -> Vec<&'static str> {
-        vec!["contended_cycle_delayed", "io_contended_high_even", "io_contended_high_odd", "io_even_uncontended_high", "bank_paged_contended_c000", "crossed_frame_end", "interrupt_in_case", "window_edge_start"]
+        vec!["contended_cycle_delayed", "io_contended_high_even", "io_contended_high_odd", "io_even_uncontended_high", "bank_paged_contended_c000", "crossed_frame_end", "interrupt_in_case", "window_edge_start", "lockstep_contended_cycle"]
     }
 
     fn gen(&self, rng: &mut Rng, _tier: Tier, _idx: u64) -> Scenario {
@@ -176,11 +176,19 @@ impl Property for C04 {
         sc.set("bus_ops", 150);
         sc.set("instrs", 300);
         sc.set("ei_share", *rng.pick(&[0i64, 0, 0, 4]));
+        if _idx % 6 == 5 || std::env::var("VERIF_ONLY_LOCKSTEP").is_ok() {
+            // (c) whole-machine lock-step without re-synchronisation
+            sc.set("lockstep", 1);
+            sc.set("steps", if _tier == Tier::Quick { 3000 } else { 10000 });
+        }
         sc
     }
 
     fn exec(&self, sc: &Scenario, ctx: &mut RunCtx) -> Result<(), Fail> {
         let m128 = sc.get("m128") != 0;
+        if sc.get("lockstep") != 0 {
+            return crate::lockstep::run(m128, sc.get("seed") as u64, sc.get("steps").clamp(1, 50_000) as usize, crate::lockstep::Judge::Contention, "C04", ctx);
+        }
         let cfg = MCfg { m128, ..Default::default() };
         let ula = RefUla::new(m128);
         let mut e = new_emu(&cfg);
